@@ -36,6 +36,15 @@ Definition m_decrypt_doc (key : N) (pad : nat) : ynode -> result ynode :=
 Definition m_skeleton : ynode -> ynode := skeleton crypt_fn_secret crypt_key_ciphertext.
 Definition m_ysecrets : ynode -> list (string + string) := ysecrets crypt_fn_secret crypt_key_ciphertext.
 
+(* Strings yaml.v3 cannot write as a block scalar (Model/YamlTree.v codec_unsafe: unquoted, outside flow, containing LF
+   and starting with LF / tab / U+2028 / U+2029).  They were the known-finding class C12-blockscalar / C04-blockscalar
+   while MarshalYAML had no guard for them; since fix 9b9d633 the finding is recorded as fixed, so NO allowance is made:
+   the model predicts that the content of such a string is preserved like any other and every failure is a violation
+   (a weakened or removed guard turns the checks red).  The switch is kept so that the class can be re-activated, which
+   must go together with a `known:` line in known-findings.txt. *)
+Definition tolerate_block_scalars : bool := false.
+Definition codec_tolerated (y : ynode) : bool := tolerate_block_scalars && codec_unsafe y.
+
 Definition err_eqb (a b : rw_error) : bool :=
   match a, b with
   | EDiags, EDiags | ECipher, ECipher | ECrypter, ECrypter | EPanic, EPanic => true
